@@ -60,7 +60,8 @@ def area2_q(geom) -> int:
 
 def execute(case: dict) -> dict:
     w = case["world"]
-    ds = W.build(w)
+    from .. import viafile
+    ds = viafile.hold_ds(w, W.build(w))
     if w.get("bounds_as") == "coords":
         names = [ds[n].attrs["bounds"] for n in ds.variables if "bounds" in ds[n].attrs]
         ds = ds.set_coords(names)
@@ -91,3 +92,7 @@ def execute(case: dict) -> dict:
             e["obs"] = outcome(geometry)
         rec["events"].append(e)
     return rec
+
+
+from .. import viafile as _viafile  # noqa: E402
+execute = _viafile.closing(execute)
